@@ -97,6 +97,9 @@ def parse_output(out, names):
         if st == 'fail' and (re.search(r'CBMC failed with status|CBMC timed out|out of memory|std::bad_alloc', body) or not fails):
             # the back end died (memory limit, crash) or printed no failed check: no verdict, never an alarm
             st = None
+        if st == 'fail' and fails and all('unwinding assertion' in f for f in fails):
+            # the harness bound was too small for the code as it is now: nothing was decided (never an alarm)
+            st = None
         res[short] = {'status': st, 'cover': (int(cov.group(1)), int(cov.group(2))) if cov else None, 'failed_checks': fails[:6], 'body': body[-3000:],
                       'stubs': re.findall(r'- Stub: (.*)', body)}
         cv = re.search(r'let concrete_vals: Vec<Vec<u8>> = vec!\[(.*?)\n\s*\];', body, re.S)
